@@ -45,7 +45,7 @@ def generate(rng, tier):
             if rng.random() < 0.2 and toks:
                 i = rng.randrange(len(toks))
                 if toks[i] not in (b"{", b"}", b"=", b"+=", b",", b"(", b")"):
-                    toks[i] = rng.choice([b"666", b"bad", b"\"!no\"", b"fail"])
+                    toks[i] = rng.choice([b"666", b"bad", b"\"!no\"", b"fail", b"huge", b"erange", b"hugely", b"erange2"])
             text = b" ".join(toks) + b"\n"
             regs = []
             for p, o in allo:
@@ -74,6 +74,8 @@ def generate(rng, tier):
                               [nm, b"=", b"666"], [nm, b"+=", b"bad"]]
                 else:
                     forms += [[nm, b"=", v1], [nm, b"=", v1, nm, b"=", v2]]
+                if o.ty == "float" and "p" in o.cbs:
+                    forms += ([[nm, b"=", b"{", b"1.5", b",", b"huge", b",", b"erange", b"}"]] if o.is_list() else [[nm, b"=", b"huge"], [nm, b"=", b"erange"]])
             if forms and rng.random() < 0.6:
                 extra = []
                 for f in rng.sample(forms, min(3, len(forms))):
